@@ -86,7 +86,7 @@ func genLeaf(r *core.Rand, ncells int, vlen func(i int) int, tomb uint, flags in
 }
 
 func checkC12(c *core.Ctx) []core.Floor {
-	c.Rule = "nodes built with the engine's own primitives (sorted insert, split halves, updateCell, tombstone, markDirty, sibling links): leaves with every cell count 0-9, value lengths over 0..400 (all 401 in thorough, boundaries + sampled in quick), every tombstone mask for <= 6 cells, all four sibling-flag combinations, LSN in {0,1,2^32,2^64-1}; internal nodes with 0-290 cells and child offsets up to 2^40; both halves straight out of split. For each node: the encoding must be exactly 4096 bytes; decode(encode(n)), decode(encode(decode(encode(n)))) and a write through one fileStore + read through a second, cold fileStore must all have the same logical content as n. Plus real pages: in histories with a flush after every statement every clean cached node is compared with the page decoded from the file. Distinct = node spec; non-trivial = the node has at least one cell."
+	c.Rule = "nodes built with the engine's own primitives (sorted insert, split halves, updateCell, tombstone, markDirty, sibling links): leaves with every cell count 0-9, value lengths over 0..400 (all 401 in thorough, boundaries + sampled in quick), every tombstone mask for <= 6 cells, all four sibling-flag combinations, LSN in {0,1,2^32,2^64-1}; internal nodes with 0-290 cells and child offsets up to 2^40; both halves straight out of split. For each node: the encoding must be exactly 4096 bytes; decode(encode(n)), decode(encode(decode(encode(n)))) and a write through one fileStore + read through a second, cold fileStore must all have the same logical content as n. Plus real pages: in histories with a flush after every statement every clean cached node is compared with the page decoded from the file, and no flush may fail (one history in four also runs a queue table: rows appended at the tail, the oldest deleted, so that the rightmost leaf collects tombstones while it is still being inserted into). Distinct = node spec; non-trivial = the node has at least one cell."
 	c.Assume = []string{"only shapes the engine's primitives produce with ascending keys are judged", "byte layout of the free gap is not compared, only logical content"}
 	drv := mustDriver(c, false)
 	r := core.NewRand(core.SubSeed(c.Seed, "C12", 0))
@@ -268,6 +268,12 @@ func checkC12(c *core.Ctx) []core.Floor {
 		s.sql("CREATE DATABASE d1")
 		s.sql("USE d1")
 		var walks []int
+		var flushes []int
+		queue := i%4 == 1
+		if queue {
+			s.sql("CREATE TABLE q (k INT, pad VARCHAR(255))")
+		}
+		qHead, qTail := 0, 0
 		n := hr.Range(20, 60)
 		if i%4 == 3 {
 			n = hr.Range(50, 90)
@@ -278,7 +284,20 @@ func checkC12(c *core.Ctx) []core.Floor {
 			} else {
 				s.stmt(h.Next())
 			}
-			s.k("flush")
+			if queue {
+				// a queue: new rows at the tail, the oldest ones deleted, so
+				// that the rightmost leaf collects tombstones while it is
+				// still being inserted into
+				for x := hr.Range(1, 3); x > 0; x-- {
+					s.sql(fmt.Sprintf("INSERT INTO q VALUES (%d, '%s')", qTail, strings.Repeat("p", hr.Range(60, 250))))
+					qTail++
+				}
+				for qTail-qHead > 2 {
+					s.sql(fmt.Sprintf("DELETE FROM q WHERE k = %d", qHead))
+					qHead++
+				}
+			}
+			flushes = append(flushes, s.k("flush"))
 			walks = append(walks, s.add(proto.Op{K: "walk", M: 1, S: "filecmp"}))
 			if hr.Chance(1, 10) {
 				s.k("close")
@@ -290,6 +309,16 @@ func checkC12(c *core.Ctx) []core.Floor {
 		if out.Died {
 			c.Inconclusive("harvest", "harvest history died: "+core.FatalTail(out.Stderr))
 			return
+		}
+		for _, fi := range flushes {
+			// a node that cannot be written as one page shows as a failing flush
+			if r := out.Res[fi]; r.Panic != "" || r.Err != "" {
+				c.Violation("C12:real-page:flush-failed:"+errClass(r.Panic+r.Err), "writing the changed pages of a real history failed: "+clip(r.Panic+r.Err, 300), map[string]interface{}{"history": i, "ops_before": fi, "queue_table": queue})
+				return
+			}
+		}
+		if queue {
+			c.Count("harvest_histories_with_a_queue_table", 1)
 		}
 		for _, w := range walks {
 			r := out.Res[w]
@@ -310,7 +339,7 @@ func checkC12(c *core.Ctx) []core.Floor {
 		c.Eval(fmt.Sprintf("harvest-%d", i), true)
 	})
 	c.Sample(2, specs[3])
-	return []core.Floor{{Key: "nodes", Min: 500}, {Key: "leaf_9_cells_400_bytes", Min: 1}, {Key: "internal_290_cells", Min: 1}, {Key: "flags_0", Min: 1}, {Key: "flags_1", Min: 1}, {Key: "flags_2", Min: 1}, {Key: "flags_3", Min: 1}, {Key: "split_halves", Min: 10}, {Key: "store_round_trips", Min: 400}, {Key: "harvested_pages_compared_with_file", Min: 2000}}
+	return []core.Floor{{Key: "nodes", Min: 500}, {Key: "leaf_9_cells_400_bytes", Min: 1}, {Key: "internal_290_cells", Min: 1}, {Key: "flags_0", Min: 1}, {Key: "flags_1", Min: 1}, {Key: "flags_2", Min: 1}, {Key: "flags_3", Min: 1}, {Key: "split_halves", Min: 10}, {Key: "store_round_trips", Min: 400}, {Key: "harvested_pages_compared_with_file", Min: 2000}, {Key: "harvest_histories_with_a_queue_table", Min: 3}}
 }
 
 func judgeNode(c *core.Ctx, sp nodespec.Spec, nr nodeRes) {
